@@ -209,3 +209,48 @@ fn ki8_sync() {
     core::mem::forget(strm);
     core::mem::forget(state);
 }
+
+/// inflateSync followed by inflate(): the running totals keep counting from where they were (zlib.h: inflateSync
+/// preserves total_in/total_out; C15: totals equal the sums over all calls), and decoding restarts at the block after
+/// the marker.
+#[kani::proof]
+#[kani::unwind(8)]
+#[kani::stub(crate::inflate::inftrees::inflate_table, stub_table_unreachable)]
+#[kani::stub(core::fmt::write, stub_fmt_write)]
+#[kani::stub(core::panicking::panic_nounwind, stub_pn)]
+#[kani::stub(core::panicking::panic_nounwind_fmt, stub_pnf)]
+#[kani::stub(crate::inflate::inflate_fast_help, stub_fast_unreachable)]
+#[kani::stub(crate::inflate::State::len_and_friends, stub_laf_suspends)]
+#[kani::stub(crate::inflate::writer::Writer::copy_match, stub_copy_match_unreachable)]
+#[kani::stub(crate::inflate::writer::Writer::extend_from_window, stub_efw_unreachable)]
+#[kani::stub(<[u16]>::fill, stub_fill_unreachable)]
+fn ki8_sync_then_inflate() {
+    let d: [u8; 2] = kani::any();
+    // marker, then a final stored block of 2 bytes
+    let input: [u8; 11] = [0x00, 0x00, 0xff, 0xff, 0x01, 0x02, 0x00, 0xfd, 0xff, d[0], d[1]];
+    let mut out = [0u8; 4];
+    let mut win = [0u8; 4 + 64];
+    let mut state = typed_state(&mut win, 0, Mode::Len);
+    let tin0: u64 = kani::any();
+    let tout0: u64 = kani::any();
+    kani::assume(tin0 < 1 << 40 && tout0 < 1 << 40);
+    state.total = tout0 as usize; // invariant of an ongoing stream: the internal and the public total agree
+    let mut strm = typed_stream(unsafe { &mut *(&mut state as *mut State) });
+    strm.next_in = input.as_ptr() as *mut u8;
+    strm.avail_in = 11;
+    strm.next_out = out.as_mut_ptr();
+    strm.avail_out = 4;
+    strm.total_in = tin0 as _;
+    strm.total_out = tout0 as _;
+    let rc = sync(&mut strm);
+    assert!(rc == ReturnCode::Ok);
+    assert!(strm.avail_in == 7 && strm.total_in as u64 == tin0 + 4 && strm.total_out as u64 == tout0);
+    let rc = unsafe { inflate(&mut strm, InflateFlush::NoFlush) };
+    assert!(rc == ReturnCode::StreamEnd);
+    assert!(strm.avail_in == 0 && strm.avail_out == 2 && out[0] == d[0] && out[1] == d[1]);
+    assert!(strm.total_in as u64 == tin0 + 11, "total_in = everything consumed, before and after the sync point");
+    assert!(strm.total_out as u64 == tout0 + 2, "total_out = everything produced, before and after the sync point");
+    kani::cover!(tout0 == 300);
+    core::mem::forget(strm);
+    core::mem::forget(state);
+}
